@@ -44,7 +44,37 @@ def build(p, lm, source):
             return next(iter(RTCMReader(sock, labelmsm=lm, quitonerror=2, bufsize=64)))[1]
         finally:
             sock.close()
-    return RTCMMessage(payload=p, labelmsm=lm)
+    m = RTCMMessage(payload=p, labelmsm=lm)
+    if source == "copy":
+        import copy
+
+        return copy.copy(m)
+    if source == "deepcopy":
+        import copy
+
+        return copy.deepcopy(m)
+    if source == "pickle":
+        import pickle
+
+        return pickle.loads(pickle.dumps(m))
+    return m
+
+
+def other_constructions(k):
+    """constructor activity between two assignment attempts: failing and succeeding constructions of OTHER messages
+    (an object's immutability must not depend on what is constructed elsewhere)"""
+    from pyrtcm import RTCMMessage, RTCMReader
+
+    for payload in ((None, b"", b"\x3e", b"\x3e\xd0\x00", b"\xfe\x80\x01\x02")[k % 5], b"\x43\x50\x00"):
+        try:
+            RTCMMessage(payload=payload)
+        except Exception:  # pylint: disable=broad-except
+            pass
+    if k % 2:
+        try:
+            RTCMReader.parse(b"\xd3\x00\x02\x3e\xd0\x00\x00\x00", validate=0)
+        except Exception:  # pylint: disable=broad-except
+            pass
 
 
 AUG = {bytes: b"\x00", int: 1, float: 1.5, str: "x", bool: True}
@@ -68,6 +98,8 @@ def o_setattr(case):
         if name in ("__dict__", "__class__") and not isinstance(val, (dict, type)):
             pass
         touched.append(name)
+        if case.get("interleave") and (sel + vi) % 3 == 0:
+            other_constructions(sel + vi)
         try:
             setattr(m, name, val)
         except RTCMMessageError:
@@ -115,6 +147,8 @@ def o_setattr(case):
     if any(t in ("payload", "identity", "ismsm") for t in touched):
         cls.append("touch-property")
     cls.append("source-" + case.get("source", "ctor"))
+    if case.get("interleave"):
+        cls.append("other-constructions-interleaved")
     return Res(nontrivial=derived or private, classes=cls, evals=len(case["ops"]))
 
 
@@ -133,7 +167,8 @@ def s_setattr(draw, tier):
         "labelmsm": draw(st.sampled_from([1, 2])),
         "ops": [list(o) for o in ops],
         "direct": draw(st.booleans()),
-        "source": draw(st.sampled_from(["ctor", "ctor", "static", "reader-file", "reader-socket"])),
+        "source": draw(st.sampled_from(["ctor", "ctor", "static", "reader-file", "reader-socket", "copy", "deepcopy", "pickle"])),
+        "interleave": draw(st.booleans()),
     }
 
 
@@ -145,5 +180,5 @@ def _short(c):
 
 
 SUBS = [
-    Sub("setattr_sequences", o_setattr, strategy=s_setattr, examples=(200, 4000), rule="touches a derived MSM attribute or a private name", need={"msm": 1, "stub": 1, "touch-private": 1, "touch-derived": 1, "touch-property": 1, "source-reader-socket": 1}, sample=_short),
+    Sub("setattr_sequences", o_setattr, strategy=s_setattr, examples=(200, 4000), rule="touches a derived MSM attribute or a private name", need={"msm": 1, "stub": 1, "touch-private": 1, "touch-derived": 1, "touch-property": 1, "source-reader-socket": 1, "source-pickle": 1, "source-copy": 1, "other-constructions-interleaved": 1}, sample=_short),
 ]
